@@ -158,6 +158,8 @@ def k2(ctx):
     # do_commit call sites
     sites = []
     for fi in ctx.P.all_funcs():
+        if ctx.absorbed(fi):
+            continue
         for n in walk_local(fi.node):
             if isinstance(n, ast.Call) and (dotted(n.func) or "").split(".")[-1] == "do_commit":
                 sites.append((fi, n))
@@ -282,6 +284,8 @@ def k4(ctx):
             ancestors.add(a.qualname)
     n_sites = 0
     for fi in ctx.P.all_funcs():
+        if ctx.absorbed(fi):
+            continue
         if fi.module.name.startswith("xandikos.store"):
             continue
         cfg = None
@@ -400,6 +404,8 @@ def k6(ctx):
     from ..dataflow import DefUse
     obs = []
     for fi in ctx.P.funcs_in_module("xandikos.store.git"):
+        if ctx.absorbed(fi):
+            continue
         cfg = ctx.cfg(fi)
         du = None
         for t in [n for n in cfg.nodes if n.kind == "test" and isinstance(n.ast, ast.Compare) and len(n.ast.ops) == 1 and isinstance(n.ast.ops[0], (ast.Eq, ast.NotEq))]:
